@@ -1,4 +1,5 @@
 import asyncio
+import copy
 import logging
 import pickle
 import struct
@@ -7,6 +8,8 @@ import threading
 import uuid
 from asyncio import StreamReader, StreamWriter
 from asyncio.exceptions import IncompleteReadError
+
+import numpy as np
 
 from klongpy.core import (KGCall, KGFn, KGFnWrapper, KGLambda, KGSym,
                           KlongException, KLONG_UNDEFINED, get_fn_arity_str, is_list,
@@ -104,6 +107,10 @@ async def execute_server_command(future_loop, result_future, klong, command, nc)
         elif isinstance(response, KGLambda):
             # TODO: move to using .arity for KGLambda
             response = KGRemoteFnRef(response.get_arity())
+        if isinstance(response, (dict, list)) or (isinstance(response, np.ndarray) and response.dtype == object):
+            # the response is pickled later, on the io loop, while the klong loop goes on with the next request:
+            # an in-place update of a dictionary by that request must not show in this answer
+            response = copy.deepcopy(response)
         future_loop.call_soon_threadsafe(result_future.set_result, response)
     except KeyError as e:
         future_loop.call_soon_threadsafe(result_future.set_exception, KlongException(f"symbol not found: {e}"))
